@@ -77,7 +77,7 @@ func bindingSelfTest(rep *Report) {
 	fmt.Printf("binding self-test: %d recorded executions accepted; %d copies with one corrupted observation each (%v): %d rejected, TLC's own comparison (Strict) rejected %d operations\n",
 		clean.Containers, len(bad), applied, res.Containers-res.Accepted, res.StrictBad)
 	rep.Specials = append(rep.Specials, &SpecialStats{Name: "binding-selftest", Evaluations: len(bad), Distinct: len(bad), States: res.TLC.Distinct, Transitions: res.TLC.Generated,
-		Rule: "every recorded execution is validated unchanged (accepted) and once more with exactly one observation corrupted (argument provenance, verdict, a dropped execution, a flipped outcome, a called marker, a cached value): the corrupted copy must be rejected",
+		Rule:  "every recorded execution is validated unchanged (accepted) and once more with exactly one observation corrupted (argument provenance, verdict, a dropped execution, a flipped outcome, a called marker, a cached value): the corrupted copy must be rejected",
 		Extra: map[string]interface{}{"clean_accepted": clean.Accepted, "corrupted": len(bad), "corrupted_rejected": res.Containers - res.Accepted, "by_kind": applied}, Wall: time.Since(start).Seconds()})
 }
 
